@@ -165,15 +165,29 @@ func H_C08_challenge() {
 	ti = append(ti, 0, 0, 0, 0)
 	msg := append([]byte{}, []byte("NTLMSSP\x00")...)
 	msg = append(msg, 2, 0, 0, 0)
+	// payload layout (MS-NLMP does not fix the order of payload fields): 0 = name then info, 1 = info then name,
+	// 2 = name only (no target info: the name is the last payload field and ends exactly at the end of the message)
+	layout := vParam("layout")
 	tnOff, tiOff := 56, 56+len(tname)
+	if layout == 1 {
+		tiOff, tnOff = 56, 56+len(ti)
+	}
+	if layout == 2 {
+		ti = nil
+	}
 	msg = append(msg, byte(len(tname)), 0, byte(len(tname)), 0, byte(tnOff), 0, 0, 0)
 	msg = append(msg, byte(flags), byte(flags>>8), byte(flags>>16), byte(flags>>24))
 	msg = append(msg, server...)
 	msg = append(msg, reserved...)
 	msg = append(msg, byte(len(ti)), 0, byte(len(ti)), 0, byte(tiOff), 0, 0, 0)
 	msg = append(msg, ver...)
-	msg = append(msg, tname...)
-	msg = append(msg, ti...)
+	if layout == 1 {
+		msg = append(msg, ti...)
+		msg = append(msg, tname...)
+	} else {
+		msg = append(msg, tname...)
+		msg = append(msg, ti...)
+	}
 	c, err := ParseChallengeMessage(msg)
 	vCheck(err == nil, "challenge/parses")
 	if err != nil {
@@ -186,6 +200,10 @@ func H_C08_challenge() {
 	if flags&NTLMSSP_NEGOTIATE_VERSION != 0 {
 		vb, _ := c.Version.Marshal()
 		vCheck(vBytesEq(vb, ver), "challenge/version")
+	}
+	if layout == 2 {
+		vCover("end")
+		return
 	}
 	pairs, err := ParseTargetInfo(c.TargetInfo)
 	vCheck(err == nil, "challenge/target-info-parses")
